@@ -280,7 +280,9 @@ class Env:
     def launch(self, demo, path, opts, procs=0, affinity=0):
         cmd = ([] if not procs else MPIRUN + [str(procs)]) + [self.bins[demo]] + list(opts) + [path]
         if affinity and not procs:
-            cmd = ["taskset", "-c", "0-%d" % (affinity - 1)] + cmd
+            allowed = sorted(os.sched_getaffinity(0))
+            if shutil.which("taskset") and len(allowed) > affinity:
+                cmd = ["taskset", "-c", ",".join(str(x) for x in allowed[:affinity])] + cmd
         self.launches += 1
         if not procs:
             return run(cmd)
@@ -453,7 +455,8 @@ def make_c20(env, stats):
         opts = draw(st.lists(exact_opts(), min_size=2, max_size=4))
         which = draw(st.sampled_from(["mcb-dimacs", "approx-mcb-dimacs"]))
         # a third of the examples run with the process restricted to 1-3 CPUs (the machine's CPU count and TBB's default then differ)
-        aff = draw(st.sampled_from([0, 0, 1, 2, 3])) if hw_threads() >= 4 else 0
+        can_restrict = shutil.which("taskset") is not None and len(os.sched_getaffinity(0)) >= 4 and len(os.sched_getaffinity(0)) == hw_threads()
+        aff = draw(st.sampled_from([0, 0, 1, 2, 3])) if can_restrict else 0
         return dict(n=n, edges=edges, opts=opts, demo=which, affinity=aff)
 
     def prop(ex):
